@@ -101,7 +101,7 @@ def run_traced(c, lazy):
 
 
 # ----------------------------------------------------------------------------- numeric pipelines
-def gen_pipeline(ctx: Ctx, focus=False, force_algorithm=False):
+def gen_pipeline(ctx: Ctx, focus=False, force_algorithm=False, failing=False):
     """random pipeline; `focus`: the region where most bookkeeping meets — ensemble potential x several exit planes x a
     detector that drops base axes x a scan"""
     rng = ctx.rng
@@ -132,10 +132,21 @@ def gen_pipeline(ctx: Ctx, focus=False, force_algorithm=False):
     entry = "builder" if kind == "build" else rng.choice(["builder", "builder", "real", "reciprocal"])
     slow = ["realspace"] if ctx.thorough else []  # long JIT compilation per process: thorough tier (quick: traced only)
     algorithm = rng.choice(["default", "default", "fourier-conjugate", "fourier-transpose", "fourier-order2"] + slow)
+    fail = "none"
+    if failing:  # pipelines that must fail — in both modes, with the same exception class
+        fail = rng.choice(["detector-angle", "grid-mismatch", "exit-plane-range"])
+        kind, post, focus = "multislice", "none", False
+        if fail == "detector-angle":
+            builder, dets, scan = "probe", ["annular-too-wide"], rng.choice(["none", "custom"])
+        elif fail == "grid-mismatch":   # a built PotentialArray has a fixed grid (a Potential builder would adapt to the waves)
+            entry, pot = rng.choice(["real", "reciprocal"]), "array"
+        else:
+            spec = [0, 99]  # beyond the last slice of every potential kind
+    ens_probe = builder == "probe" and fail == "none" and rng.random() < 0.25  # distribution-valued defocus: a parameter axis
     if force_algorithm:  # a non-default algorithm keyword must reach every lazy block
         algorithm = rng.choice(["fourier-conjugate", "fourier-transpose"] + slow)
         kind = "multislice"
-    return dict(algorithm=algorithm, entry=entry, kind=kind, post=post, nslices=n, atoms=atoms, pot=pot, spec=spec, builder=builder, scan=scan, dets=dets, gpts=rng.choice([8, 12]),
+    return dict(fail=fail, ens_probe=ens_probe, algorithm=algorithm, entry=entry, kind=kind, post=post, nslices=n, atoms=atoms, pot=pot, spec=spec, builder=builder, scan=scan, dets=dets, gpts=rng.choice([8, 12]),
                 ncfg=rng.randint(1, 3), seed=rng.randint(1, 10 ** 6), max_batch=rng.choice(["auto", 1, 2, 3]),
                 scheduler=rng.choice(["synchronous", "synchronous", "threads"]),
                 points=[[dyadic(rng, 0, 3.5, 2), dyadic(rng, 0, 3.5, 2)] for _ in range(rng.randint(1, 3))])
@@ -165,12 +176,16 @@ def _build_pipeline(c):
     dets = []
     for d in c["dets"]:
         dets.append({"waves": abtem.detectors.WavesDetector(), "pixelated": abtem.PixelatedDetector(max_angle=None),
-                     "annular": abtem.AnnularDetector(inner=5, outer=30), "flexible": abtem.FlexibleAnnularDetector(step_size=10),
+                     "annular": abtem.AnnularDetector(inner=5, outer=30), "annular-too-wide": abtem.AnnularDetector(inner=5, outer=400),
+                     "flexible": abtem.FlexibleAnnularDetector(step_size=10),
                      "segmented": abtem.SegmentedDetector(inner=5, outer=30, nbins_radial=2, nbins_azimuthal=2)}[d])
     scan = {"none": None, "custom": abtem.CustomScan(np.array(c["points"])), "line": abtem.LineScan(start=(0, 0), end=(2, 2), gpts=3),
             "grid": abtem.GridScan(start=(0, 0), end=(2, 2), gpts=2)}[c["scan"]]
     bkw = dict(energy=100e3, extent=4.0, gpts=c["gpts"])
-    builder = abtem.PlaneWave(**bkw) if c["builder"] == "plane" else abtem.Probe(semiangle_cutoff=30, **bkw)
+    if c.get("fail") == "grid-mismatch":
+        bkw["gpts"] = c["gpts"] + 2  # the waves do not match the grid of the potential
+    pkw = dict(defocus=abtem.distributions.uniform(0.0, 40.0, 3)) if c.get("ens_probe") else {}
+    builder = abtem.PlaneWave(**bkw) if c["builder"] == "plane" else abtem.Probe(semiangle_cutoff=30, **bkw, **pkw)
     return builder, pot, dets, scan
 
 
@@ -201,7 +216,9 @@ def _run_pipeline(c, lazy):
             if c["entry"] == "reciprocal":
                 w = w.ensure_reciprocal_space()
             if lazy:
-                w = w.ensure_lazy()
+                # chunk every ensemble axis by max_batch (several blocks along the batch), base axes whole
+                mb = c["max_batch"]
+                w = w.ensure_lazy() if mb == "auto" else w.ensure_lazy(chunks=(mb,) * len(w.ensemble_shape) + (-1, -1))
             r = w.multislice(pot, detectors=dets, **akw)
         elif c["builder"] == "plane":
             r = builder.multislice(pot, detectors=dets, lazy=lazy, max_batch=c["max_batch"], **akw)
@@ -228,13 +245,16 @@ def _describe(ms):
 
 
 def _close(a, b):
+    """every entry must agree: |a-b| <= 1e-4 |b| + 1e-7 max|b| (float32; a global-maximum tolerance would let weak channels,
+    dark pixels and high-angle bins be wrong unnoticed)"""
     a = np.asarray(a)
     b = np.asarray(b)
     if a.shape != b.shape:
         return False, f"shape {a.shape} vs {b.shape}"
-    scale = max(float(np.abs(b).max()), 1e-12)
-    d = float(np.abs(a - b).max())
-    return d <= 2e-5 * scale, f"max|diff|={d:.3g} scale={scale:.3g}"
+    gmax = max(float(np.abs(b).max()) if b.size else 0.0, 1e-30)
+    err = np.abs(a - b) - (1e-4 * np.abs(b) + 1e-7 * gmax)
+    bad = int((err > 0).sum())
+    return bad == 0, f"{bad} of {a.size} entries differ, max|diff|={float(np.abs(a - b).max()) if a.size else 0:.3g} max={gmax:.3g}"
 
 
 class C01(Property):
@@ -273,7 +293,7 @@ class C01(Property):
         def add(name, line, impl, case):
             lines.append(line); impls.append(impl); names.append(name); cases.append(case)
 
-        for _ in range(ctx.n(50, 600)):
+        for _ in range(ctx.n(50, 350)):
             c = trace_case(rng)
             for lazy in (False, True):
                 pot, configs, ids, text, chunks = run_traced(c, lazy)
@@ -339,7 +359,12 @@ class C01(Property):
                           f":planes={'yes' if c['spec'] is not None else 'no'}", c, {"eager": ve if se == "err" else "ok", "lazy": vl if sl == "err" else "ok", "case": tag})
             return
         if se == "err":
-            ctx.count("both-raise")
+            # the property asks that both modes fail together, not for the same exception class (lazy errors surface inside
+            # dask); classes are recorded in the histogram.  A *valid* pipeline failing in both modes is counted separately.
+            ctx.count(f"both-raise:{c.get('fail', 'none')}:eager={ve.split(':')[0]}:lazy={vl.split(':')[0]}")
+            return
+        if c.get("fail", "none") != "none":
+            ctx.violation(f"malformed-pipeline-accepted:{c['fail']}", c, {"case": tag})
             return
         de, dl = _describe(ve), _describe(vl)
         same_axes = all(list(a.axes_metadata) == list(b.axes_metadata) for a, b in zip(ve, vl))
@@ -356,10 +381,10 @@ class C01(Property):
                 return
 
     def conformance(self, ctx: Ctx):
-        for i in range(ctx.n(36, 500)):
-            c = gen_pipeline(ctx, focus=(i % 4 == 3), force_algorithm=(i % 4 == 1))
+        for i in range(ctx.n(36, 250)):
+            c = gen_pipeline(ctx, focus=(i % 4 == 3), force_algorithm=(i % 4 == 1), failing=(i % 6 == 2))
             self.oracle(ctx, c)
-            ctx.count(f"numeric:{c['kind']}:{c['pot']}:{c['builder']}:scan={c['scan']}:batch={c['max_batch']}:{c['scheduler']}:post={c['post']}:entry={c['entry']}:{c['algorithm']}")
+            ctx.count(f"numeric:{c['kind']}:{c['pot']}:{c['builder']}:scan={c['scan']}:batch={c['max_batch']}:{c['scheduler']}:post={c['post']}:entry={c['entry']}:{c['algorithm']}:fail={c['fail']}:ensprobe={c['ens_probe']}")
             ctx.case(c, nontrivial=True)
 
     def replay(self, ctx: Ctx, case):
